@@ -32,17 +32,34 @@ Definition envs (ws : list nat) : list (list bits) :=
   let t := sum_nat ws in
   map (fun x => split_fields ws (of_Z t (Z.of_nat x))) (seq 0 (2 ^ t)).
 
-(* None = the helper raises; otherwise (output bitwidths, per input value the outputs) *)
+(* a bit list as hex digits, least significant nibble first, prepended to k *)
+Definition nib (a b c d : bool) : ascii :=
+  nth ((if a then 1 else 0) + (if b then 2 else 0) + (if c then 4 else 0) + (if d then 8 else 0))%nat
+      (list_ascii_of_string "0123456789abcdef") "0"%char.
+
+Fixpoint hex (l : bits) (k : string) : string :=
+  match l with
+  | a :: b :: c :: d :: r => String (nib a b c d) (hex r k)
+  | [a; b; c] => String (nib a b c false) k
+  | [a; b] => String (nib a b false false) k
+  | [a] => String (nib a false false false) k
+  | [] => k
+  end.
+
+(* None = the helper raises; otherwise (output bitwidths, table): one row per pool value, a row =
+   the outputs concatenated (first output in the low bits) as ceil(bits/4) hex digits, low nibble
+   first.  (A string prints an order of magnitude faster than nested lists.) *)
 Definition run_tab (ws : list nat) (f : list bits -> option (list bits))
-  : option (list Z * list (list Z)) :=
+  : option (list Z * string) :=
   match envs ws with
   | [] => None
   | e0 :: _ =>
     match f e0 with
     | None => None
     | Some r0 =>
-      Some (map (fun b => Z.of_nat (length b)) r0,
-            map (fun e => match f e with Some r => map to_Z r | None => [] end) (envs ws))
+      Some (map (fun b => Z.of_nat (List.length b)) r0,
+            fold_right (fun e k => match f e with Some r => hex (List.concat r) k | None => k end)
+                       EmptyString (envs ws))
     end
   end.
 
